@@ -9,11 +9,15 @@
     m <n>                    -> ok | panic      (the last index of CalcMerkle on n hashes)
     max <cmd-ascii>          -> ok <maxmsgsize as regenerated from core.go>
     txsize <bytes>           -> ok <n>
+    x <now> <mis> <t:w,t:w,..|->  -> ok <mis'> <t:w,..|-> | panic   (expire_misbehave on c.misbehave = mis and
+                                c.misbehave_history = the records (t = time & 0xffff, w = points, both decimal
+                                0..65535), Model/NetParseExpire.lean; now and mis are signed decimals)
   <out> = ok <tag> <n1,n2,..|-> <blob1,blob2,..|-> | reject <reason> | panic <site with _ for spaces>
 -/
 import GocoinV.Model.NetParse
 import GocoinV.Model.Wire
 import GocoinV.Model.NetParseState
+import GocoinV.Model.NetParseExpire
 import GocoinV.Gen.NetFacts
 import GocoinV.Base.Sha256
 import GocoinV.Base.Proto
@@ -38,6 +42,20 @@ def newTxI (b : Bytes) : Option (Nat × Nat) :=
 
 def bit? (s : String) : Option Bool :=
   if s == "1" then some true else if s == "0" then some false else none
+
+/-- `t:w,t:w,..` or `-`; both fields decimal uint16, anything else is malformed -/
+def hist? (s : String) : Option Expire.Hist :=
+  if s == "-" then some [] else
+  (s.splitOn ",").mapM fun rec =>
+    match rec.splitOn ":" with
+    | [t, w] =>
+      match t.toNat?, w.toNat? with
+      | some t, some w => if t < 65536 && w < 65536 then some (t, w) else none
+      | _, _ => none
+    | _ => none
+
+def showHist (h : Expire.Hist) : String :=
+  commaList (h.map fun (t, w) => s!"{t}:{w}")
 
 def step (_ : Unit) (toks : List String) : Unit × String :=
   let bad := ((), "bad-op")
@@ -86,6 +104,13 @@ def step (_ : Unit) (toks : List String) : Unit × String :=
     match Hex.decode b with
     | some b => ((), s!"ok {Wire.txSize b}")
     | none => bad
+  | ["x", now, mis, h] =>
+    match now.toInt?, mis.toInt?, hist? h with
+    | some now, some mis, some h =>
+      ((), match Expire.expire now mis h with
+           | some (m, h') => s!"ok {m} {showHist h'}"
+           | none => "panic")
+    | _, _, _ => bad
   | _ => bad
 
 def main : IO Unit := Proto.serve () step
